@@ -21,12 +21,13 @@ var (
 	vfs         []vEntry
 	vfsMut      int  // mutating operations performed after vfsSeal
 	vfsOutside  int  // mutating operations whose path is not lexically inside the target
-	vfsLongName bool // model ENAMETOOLONG: an element longer than 255 bytes is refused by every operation
+	vfsLongName bool   // model ENAMETOOLONG: the designated over-long element is refused by every operation
+	vfsLongElem string // that element (an opaque name; natively longer than 255 bytes)
 )
 
 func vfsReset() {
 	vfs = []vEntry{{elems: []string{"T"}, kind: 1}}
-	vfsMut, vfsOutside, vfsLongName = 0, 0, false
+	vfsMut, vfsOutside, vfsLongName, vfsLongElem = 0, 0, false, ""
 }
 
 func vfsTarget() string { return "T" }
@@ -93,12 +94,15 @@ func vfsTooLong(e []string) bool {
 		return false
 	}
 	for _, x := range e {
-		if len(x) > 255 {
+		if x == vfsLongElem {
 			return true
 		}
 	}
 	return false
 }
+
+// vfsTargetAsFile turns the target into a regular file (pre-state).
+func vfsTargetAsFile() { vfs = []vEntry{{elems: []string{"T"}, kind: 2}} }
 
 func vfsInside(e []string) bool {
 	if len(e) == 0 || e[0] != "T" {
